@@ -120,6 +120,9 @@ type FixtureCase struct {
 	Source string   `json:"source"` // path relative to the repository
 	Ops    []string `json:"ops"`
 	Text   string   `json:"text"`
+	// OriginalAccepted: the shipped parser accepts the unchanged fixture (informational; a
+	// rewrite that turns an accepted file into a rejected one is a harness bug)
+	OriginalAccepted bool `json:"originalAccepted"`
 }
 
 func repoDir() string {
@@ -163,7 +166,7 @@ func genFixture(t *rapid.T) FixtureCase {
 	list := fixtures()
 	rel := list[rapid.IntRange(0, len(list)-1).Draw(t, "file")]
 	text := readFixture(rel)
-	c := FixtureCase{Source: rel}
+	c := FixtureCase{Source: rel, OriginalAccepted: fixtureAccepted(rel, text)}
 	nOps := rapid.IntRange(0, 4).Draw(t, "nOps")
 	for i := 0; i < nOps; i++ {
 		op := rapid.SampledFrom(rewriteOps).Draw(t, "op")
@@ -174,13 +177,23 @@ func genFixture(t *rapid.T) FixtureCase {
 	return c
 }
 
+var acceptedCache = map[string]bool{}
+
+func fixtureAccepted(rel, text string) bool {
+	if v, ok := acceptedCache[rel]; ok {
+		return v
+	}
+	n, _ := syntaxErrors(text)
+	acceptedCache[rel] = n == 0
+	return n == 0
+}
+
 func checkFixture(c FixtureCase) pbt.Verdict {
-	if n, _ := syntaxErrors(c.Text); n > 0 {
-		if len(c.Ops) > 0 {
-			pbt.Count("rewritten_fixtures_rejected_by_shipped_parser", 1)
-		} else {
-			pbt.Count("fixtures_rejected_by_shipped_parser", 1)
+	if n, first := syntaxErrors(c.Text); n > 0 {
+		if c.OriginalAccepted && len(c.Ops) > 0 {
+			panic(fmt.Sprintf("c09 HARNESS BUG: rewrite %v of %s is rejected by the shipped parser (%s) although the original is accepted:\n%s", c.Ops, c.Source, first, c.Text))
 		}
+		pbt.Count("fixture_cases_on_files_the_shipped_parser_rejects", 1)
 		return pbt.Verdict{Skip: true}
 	}
 	if msg := judgeText(c.Text); msg != "" {
@@ -218,7 +231,11 @@ func TestPropFixtureSweep(t *testing.T) {
 		}
 		text := readFixture(rel)
 		op := rewriteOps[i%len(rewriteOps)]
-		cases := []FixtureCase{{Source: rel, Text: text}, {Source: rel, Ops: []string{op}, Text: rewriteFixed(op, text, i)}}
+		okOrig := fixtureAccepted(rel, text)
+		if !okOrig {
+			pbt.Count("fixtures_the_shipped_parser_rejects", 1)
+		}
+		cases := []FixtureCase{{Source: rel, Text: text, OriginalAccepted: okOrig}, {Source: rel, Ops: []string{op}, Text: rewriteFixed(op, text, i), OriginalAccepted: okOrig}}
 		for _, c := range cases {
 			raw, _ := json.Marshal(c)
 			writeEnvelope(os.Getenv("VERIF_JOURNAL"), raw, "process died while executing this case")
@@ -226,11 +243,6 @@ func TestPropFixtureSweep(t *testing.T) {
 			pbt.Count("fixture_sweep_cases", 1)
 			if v.Skip {
 				pbt.Count("fixture_sweep_skipped", 1)
-				if len(c.Ops) > 0 {
-					if n, _ := syntaxErrors(text); n == 0 {
-						t.Fatalf("harness bug: rewrite %v of %s is rejected by the shipped parser although the original is accepted", c.Ops, rel)
-					}
-				}
 			}
 			if v.Violation != "" {
 				writeEnvelope(os.Getenv("VERIF_FAIL_OUT"), raw, v.Violation)
@@ -269,7 +281,7 @@ func init() {
 		"value differences in the neighbours' entries caused by state carried from file to file are C07's subject and are not judged here; only presence/identity of the entries is",
 		"constructs the shipped grammar rejects are not generated (compact record constructors, varargs record components, local enums, annotated `new @A T()`, `Outer.super::m`)",
 		"a fatal error (stack overflow) is detected by the driver through the case journal")
-	pbt.Register("units", 400, 3000, genUnit, checkUnit)
+	pbt.Register("units", 600, 3000, genUnit, checkUnit)
 	pbt.Register("fixtures", 150, 600, genFixture, checkFixture)
 }
 
